@@ -106,7 +106,8 @@ class TestToolsTestRunner:
         )
         result.startTestRun()
         try:
-            return test.run(result)
+            test.run(result)
+            return result
         finally:
             result.stopTestRun()
 
